@@ -296,6 +296,35 @@ def has_undefined_constant(e) -> bool:
     return False
 
 
+def never_defined_somewhere(e, K: int = 2, timeout_ms: int = 3000) -> Optional[bool]:
+    """some non-closed subexpression (a call, division or power) is undefined on EVERY schema-consistent valuation, as proved by z3 —
+    e.g. sqrt(-(11.5 ** len({x}))), whose value does not depend on the valuation. This is the valuation-independent reading of the
+    statement's 'undefined constant subexpression', parallel to the identically-zero divisor. None: undecided."""
+    undecided = False
+    for n in sem.walk_nodes(e):
+        k = sem.kind(n)
+        if not (k == 'HplFunctionCall' or (k == 'HplBinaryOperator' and n.operator.token in ('/', '**'))):
+            continue
+        if sem.is_closed(n):
+            continue
+        try:
+            tr = Z3Tr(K=K)
+            v, d = tr.tr(n)
+        except Exception:
+            continue
+        s = z3.Solver()
+        s.set('timeout', timeout_ms)
+        for a in tr.assumptions:
+            s.add(a)
+        s.add(d)
+        r = s.check()
+        if r == z3.unsat:
+            return True
+        if r != z3.sat:
+            undecided = True
+    return None if undecided else False
+
+
 def zero_divisor_somewhere(e) -> Optional[bool]:
     """some division in e has a divisor that z3 proves identically zero (None: undecided)"""
     undecided = False
